@@ -1,3 +1,4 @@
+import GoSSE.Proofs.GenEquiv
 import GoSSE.Proofs.Lines
 import GoSSE.Proofs.ParserRun
 import GoSSE.Proofs.ParserStop
@@ -104,5 +105,49 @@ theorem early_stop_is_prefix (conn : Bool) (lastID : Bytes) (src : Source) (cfg 
     (k ≤ countEvents r.1 → rk.2.1 = PErr.none) ∧
     (countEvents r.1 < k → rk = r) :=
   implRun_early_stop conn lastID src cfg k hk
+
+
+/-! ### The translated source text (regenerated from /repo on every run)
+
+`NewlineIndex`, `NextChunk`, `trimFirstSpace`, `getFieldName` and the methods of `FieldParser` *as translated from
+chunk.go, field.go and field_parser.go* compute exactly the functions of the model the theorems above are about,
+and never panic. -/
+
+theorem translated_NewlineIndex_is_model (fuel : Nat) (s : Bytes) (hf : s.length < fuel) :
+    Gen.NewlineIndex fuel s = .ok (((newlineIndex s).1 : Int), ((newlineIndex s).2 : Int)) :=
+  GenEquiv.NewlineIndex_eq fuel s hf
+
+theorem translated_NextChunk_is_model (fuel : Nat) (s : Bytes) (hf : s.length < fuel) :
+    Gen.NextChunk fuel s = .ok (nextChunk s) :=
+  GenEquiv.NextChunk_eq fuel s hf
+
+theorem translated_scanSegment_is_model (fuel : Nat) (f : Gen.FieldParser) (chunk : Bytes) (out : Gen.Field) :
+    Gen.FieldParser_scanSegment fuel f chunk out =
+      .ok (match scanSegment f.keepComments chunk with
+           | some fld => (true, f, GenEquiv.fieldOf fld)
+           | none => (false, f, out)) :=
+  GenEquiv.scanSegment_eq fuel f chunk out
+
+/-- `FieldParser.Next`: same result, same field, same state (`absFP` reads the translated struct as the model's) -/
+theorem translated_FieldParser_Next_is_model (fuel : Nat) (f : Gen.FieldParser) (out : Gen.Field)
+    (hf : f.data.length + 1 < fuel) :
+    ∃ f' out' ok, Gen.FieldParser_Next fuel f out = .ok (ok, f', out') ∧
+      GenEquiv.absFP f' = (FP.next (f.data.length + 1) (GenEquiv.absFP f)).2 ∧
+      (match (FP.next (f.data.length + 1) (GenEquiv.absFP f)).1 with
+       | some fld => ok = true ∧ out' = GenEquiv.fieldOf fld
+       | none => ok = false ∧ out' = out) :=
+  GenEquiv.Next_eq fuel f out hf
+
+theorem translated_FieldParser_Reset_is_model (fuel : Nat) (f : Gen.FieldParser) (data : Bytes) :
+    ∃ f', Gen.FieldParser_Reset fuel f data = .ok f' ∧ GenEquiv.absFP f' = (GenEquiv.absFP f).reset data ∧ f'.err = none :=
+  GenEquiv.Reset_eq fuel f data
+
+theorem translated_FieldParser_RemoveBOM_is_model (fuel : Nat) (f : Gen.FieldParser) (b : Bool) :
+    ∃ f', Gen.FieldParser_RemoveBOM fuel f b = .ok f' ∧ GenEquiv.absFP f' = (GenEquiv.absFP f).setRemoveBOM b ∧
+      f'.err = f.err :=
+  GenEquiv.RemoveBOM_eq fuel f b
+
+/-- non-vacuity: the translated `NextChunk` on "ab\r\ncd" -/
+example : Gen.NextChunk 8 [97, 98, 13, 10, 99, 100] = .ok ([97, 98], [99, 100], true) := by rfl
 
 end GoSSE.Props.C01
